@@ -77,6 +77,8 @@ func (area) Run(c *core.Ctx) error {
 				caseInfluxFields(c, r)
 			case i%16 == 1:
 				casePooledHistory(c, r)
+			case i%16 == 14:
+				caseProtoHistory(c, r)
 			case i%8 == 7:
 				caseSingle(c, r, 120) // malformed stream
 			default:
@@ -1875,4 +1877,103 @@ func streamShape(ms []*lmetric, cut int) string {
 		sb.WriteByte(' ')
 	}
 	return sb.String()
+}
+
+// ---------------------------------------------------------------- request histories on one pooled protobuf converter
+
+// brandNewConverter: a converter that never converted anything (the pool is emptied first: converters are
+// taken and not given back until a brand-new one comes out).
+func brandNewConverter(cf *cfg) *metric.BrokerRowProtoConverter {
+	var cv *metric.BrokerRowProtoConverter
+	for k := 0; k < 4; k++ {
+		cv, _ = metric.NewBrokerRowProtoConverter([]byte(cf.reqNs), cf.realEnriched(), cf.lim.real())
+	}
+	return cv
+}
+
+// caseProtoHistory: 2-4 write requests, each with its own namespace / enriched tags / limits and 1-5 metrics
+// (valid ones of very different sizes, rejected ones at every rule), go through ONE pooled converter the way
+// ingestion/proto.Parse uses it: NewBrokerRowProtoConverter (rowConverterPool.Get + Reset), ConvertTo per
+// metric, release. Every verdict and stored row is compared with the Lean state machine of the converter
+// (ops pnew / pconv: offset slices, namespace, enriched tags, hash buffer carried across rows and requests)
+// and with what a brand-new converter gives for the metric alone.
+func caseProtoHistory(c *core.Ctx, r *rand.Rand) {
+	nreq := 2 + r.Intn(3)
+	var prev *metric.BrokerRowProtoConverter
+	for q := 0; q < nreq; q++ {
+		cf := genCfg(r)
+		c.Op(cf.enc(), "ok")
+		var cv *metric.BrokerRowProtoConverter
+		var release func(*metric.BrokerRowProtoConverter)
+		if q == 0 && r.Intn(2) == 0 {
+			cv = brandNewConverter(cf)
+			release = func(x *metric.BrokerRowProtoConverter) {
+				_, rel := metric.NewBrokerRowProtoConverter(nil, nil, cf.lim.real())
+				rel(x)
+			}
+			c.Op("pnew fresh", "ok")
+		} else {
+			cv, release = metric.NewBrokerRowProtoConverter([]byte(cf.reqNs), cf.realEnriched(), cf.lim.real())
+			c.Op("pnew pooled", "ok")
+			if cv == prev {
+				c.Branch("proto-history/pooled-converter-reused")
+			}
+		}
+		for k := 1 + r.Intn(5); k > 0; k-- {
+			bad := 0
+			if r.Intn(3) == 0 {
+				bad = 100
+			}
+			ts := int64(1600000000000 + r.Int63n(200000000000))
+			if r.Intn(10) == 0 {
+				ts = 0
+			}
+			m := genMetric(r, bad, ts)
+			if !sortSafe(cf, m) {
+				if len(m.tags) > 8 {
+					m.tags = m.tags[:8]
+				}
+				if !sortSafe(cf, m) {
+					m.tags = nil
+				}
+			}
+			var row metric.BrokerRow
+			t0 := fasttime.UnixMilliseconds()
+			err := cv.ConvertTo(m.toProto(), &row)
+			t1 := fasttime.UnixMilliseconds()
+			c.NonTrivial()
+			// the same metric through a converter without history
+			var alone metric.BrokerRow
+			errAlone := brandNewConverter(cf).ConvertTo(m.toProto(), &alone)
+			if err != nil {
+				kd := errKind(err)
+				c.Op("pconv "+m.enc(), "err "+kd)
+				c.Branch("proto-history/reject/" + kd)
+				if errAlone == nil || errKind(errAlone) != kd {
+					c.Fail("proto-row-depends-on-converter-history", fmt.Sprintf("request %d of %d on the pooled converter: %s is rejected (%s), a brand-new converter says %v", q+1, nreq, m.enc(), kd, errAlone))
+				}
+				continue
+			}
+			o, mism := observe(&row)
+			if o == nil {
+				c.Op("pconv "+m.enc(), "unreadable")
+				c.Fail("row-unreadable", "proto history: "+mism)
+				continue
+			}
+			c.Op("pconv "+m.enc(), o.line(m.ts, t0, t1))
+			c.Branch("proto-history/accept")
+			checkCanonical(c, "proto history", cf, m, o, t0, t1)
+			if errAlone != nil {
+				c.Fail("proto-row-depends-on-converter-history", fmt.Sprintf("request %d of %d on the pooled converter: %s is stored, a brand-new converter rejects it (%v)", q+1, nreq, m.enc(), errAlone))
+			} else if oa, _ := observe(&alone); oa == nil || oa.line(m.ts, t0, t1+5000) != o.line(m.ts, t0, t1+5000) {
+				got := "unreadable"
+				if oa != nil {
+					got = oa.line(m.ts, t0, t1+5000)
+				}
+				c.Fail("proto-row-depends-on-converter-history", fmt.Sprintf("request %d of %d on the pooled converter stores %s, a brand-new converter %s", q+1, nreq, o.line(m.ts, t0, t1+5000), got))
+			}
+		}
+		release(cv)
+		prev = cv
+	}
 }
